@@ -169,7 +169,8 @@ RE_STATES = re.compile(r"(\d+) states generated, (\d+) distinct states found")
 def run_tlc(module, cfg, env, workdir, workers=8, xmx="8g", timeout=1500, dfs=False, extra=()):
     metadir = os.path.join(workdir, "tlc-" + module)
     fresh_dir(metadir)
-    jopts = ["-Xss512m", "-Xmx" + xmx, "-XX:+UseParallelGC"]
+    # TLC makes a scratch directory under java.io.tmpdir for every run: keep it inside the (removed) metadir, not /tmp
+    jopts = ["-Xss512m", "-Xmx" + xmx, "-XX:+UseParallelGC", "-Djava.io.tmpdir=" + metadir]
     if dfs:
         jopts.append("-Dtlc2.tool.queue.IStateQueue=StateDeque")
     cmd = ["timeout", str(timeout), "java"] + jopts + ["-cp", TLC_JAR, "tlc2.TLC", "-workers", str(workers),
